@@ -363,7 +363,34 @@ class RouteMessage(Contract):
         self.mid = mid
         cd = I.ctx.env_class(ST.MESSAGE)
         self.msg = I.new_object(cd, {"id": mid, "__src__": I.fresh("src")})
+        # the legacy per-request table: an arbitrary map from request-id strings to one-shot streams
+        pend = I.fresh("pending")
+        I.assume(z3.And(V.is_dict(pend), Val.dsize(pend) >= 0))
+        I.set_attr(self.client, "_pending", pend, record=False)
+        self.pend = pend
+        self.q = I.fresh("other_id", z3.StringSort())
+        ws_cid = I.ctx.env_class(_E.WRITE_STREAM).cid
+        self.ws_cid = ws_cid
+        I.dict_entry_hook = self.legacy_wf
+        self.legacy_wf(I, pend, self.q)
+        self.q_stream = z3.Select(Val.dvals(pend), self.q)
+        self.q_attempted0 = z3.Select(I.st.field("attempted")[0], Val.oid(self.q_stream))
         return [self.client, self.msg], {}
+
+    def legacy_wf(self, I, D, k):
+        if not z3.eq(z3.simplify(Val.did(z3.simplify(D))), z3.simplify(Val.did(self.pend))):
+            return
+        rec = z3.Select(Val.dvals(D), k)
+        o = Val.oid(rec)
+        conds = [V.is_obj(rec), o > 0, o < 1_000_000, z3.Select(I.ctx.cls0, o) == self.ws_cid]
+        for f in ("attempted", "written", "closed"):
+            conds.append(z3.Select(I.st.field(f)[1], o))
+        conds.append(V.is_list(z3.Select(I.st.field("attempted")[0], o)))
+        conds.append(V.is_list(z3.Select(I.st.field("written")[0], o)))
+        I.assume(z3.Implies(z3.Select(Val.dkeys(D), k), z3.And(conds)))
+        # distinct ids have distinct one-shot streams
+        I.assume(z3.Implies(z3.And(k != self.q, z3.Select(Val.dkeys(D), k), z3.Select(Val.dkeys(D), self.q)),
+                            rec != z3.Select(Val.dvals(D), self.q)))
 
     def post(self, I, result):
         parts = I.client_parts
@@ -374,6 +401,13 @@ class RouteMessage(Contract):
                  z3.And(z3.Length(a) == 1, a[0] == self.msg, z3.Or(z3.Length(w) == 0, w == a)))
         I.oblige(self.name("only_notifications_reach_the_notification_stream"),
                  z3.If(V.is_none(self.mid), z3.Or(z3.Length(n) == 0, n == z3.Unit(self.msg)), z3.Length(n) == 0))
+        # no cross-talk on the legacy per-request streams: a caller registered under another id gets nothing
+        own = P.to_str(I, self.mid)
+        now_att = z3.Select(I.st.field("attempted")[0], Val.oid(self.q_stream))
+        I.oblige(self.name("a_legacy_waiter_for_another_id_is_not_handed_this_message"),
+                 z3.Implies(z3.And(z3.Select(Val.dkeys(self.pend), self.q), z3.Or(V.is_none(self.mid), self.q != own)),
+                            now_att == self.q_attempted0),
+                 watch={"message_id": self.mid, "other_id": V.VStr(self.q)})
 
     def post_exc(self, I, e):
         ok = e.cls_name in ("CancelledError", "ClosedResourceError")
